@@ -4,7 +4,8 @@
 (*           ScanDrop / ScanLoad(f) / PublishPartial / ScanEnd of the single scanner,      *)
 (*           SearchSnapshot / SearchShard / SearchDone of each search, Finalize(i).        *)
 (*   "macro" the granularity a driver can gate from outside: ScanBegin, ScanDrop,          *)
-(*           ScanLoadAll (all loads + publish), SearchSnapshot, SearchFinish, GC (every    *)
+(*           ScanLoadAll (all loads + publish), SearchSnapshot, SearchRead (streamSearch    *)
+(*           returned, results not yet copied), SearchFinish, GC (every                    *)
 (*           closable instance is closed).  With Emit: one script per explored transition. *)
 EXTENDS ReloadOps, Json
 
@@ -64,9 +65,12 @@ Shard(p)  == /\ ~Macro /\ st.srch[p].pc = "run"
              /\ \E i \in st.srch[p].todo : st' = ReadShard(st, p, i) /\ Rec(Cmd("shard", FileOfInst(i), "", p))
 Done(p)   == /\ ~Macro /\ st.srch[p].pc = "run" /\ st.srch[p].todo = {}
              /\ st' = SearchDone(st, p) /\ Rec(Cmd("done", NoF, "", p))
+\* (the driver can stop only the searches with an even number between streamSearch and done)
+Read(p)   == /\ Macro /\ p % 2 = 0 /\ st.srch[p].pc = "run" /\ st.srch[p].todo # {}
+             /\ st' = ReadAll(st, p) /\ Rec(Cmd("read", NoF, "", p))
 Finish(p) == /\ Macro /\ st.srch[p].pc = "run"
              /\ st' = SearchAll(st, p) /\ Rec(Cmd("finish", NoF, "", p))
-Search == \E p \in Procs : Snap(p) \/ Shard(p) \/ Done(p) \/ Finish(p)
+Search == \E p \in Procs : Snap(p) \/ Shard(p) \/ Done(p) \/ Read(p) \/ Finish(p)
 
 Fin == /\ ~Macro /\ \E i \in Closable(st, KeepAlive) : st' = Finalize(st, i) /\ Rec(Cmd("finalize", FileOfInst(i), "", 0))
 GC  == /\ Macro /\ (Closable(st, KeepAlive) # {} \/ \E p \in Procs : st.srch[p].pc = "run")
@@ -96,4 +100,5 @@ InvConverged          == Converged(st, MaxFmt, Fix)
 Cex == PrintT(<<"CEX", ToJson(hist)>>) /\ FALSE
 InvConvergedStrict    == ConvergedStrict(st, MaxFmt) \/ Cex
 InvNoUpgradeGap       == NoUpgradeGap(st) \/ Cex
+InvNoReadAfterCloseCex == NoReadAfterClose(st) \/ Cex
 =============================================================================
